@@ -122,3 +122,98 @@ def canon_key(expr: Optional[ast.AST], fr: Frame, depth: int = 0):
         return ("t", frame_id(fr), ast.unparse(expr))
     except Exception:  # pragma: no cover
         return ("?",)
+
+
+# ---------------------------------------------------------------- membership facts (k in C)
+def target_subscript_key(node: ast.AST, fr: Frame):
+    """Canonical key of the innermost subscript on the target of an assignment / delete statement."""
+    tgt = None
+    if isinstance(node, ast.Assign):
+        tgt = node.targets[0]
+    elif isinstance(node, (ast.AugAssign, ast.AnnAssign)):
+        tgt = node.target
+    elif isinstance(node, ast.Delete):
+        tgt = node.targets[0]
+    while tgt is not None and not isinstance(tgt, ast.Subscript):
+        tgt = tgt.value if isinstance(tgt, ast.Attribute) else None
+    if isinstance(tgt, ast.Subscript):
+        return canon_key(tgt.slice, fr)
+    return ("-",)
+
+
+def is_saved_copy_restore(ev, path, key) -> bool:
+    """`L = saved` where `saved = L` (same path, same element) was taken textually before."""
+    from ..interp import VPath
+
+    if ev.how != "set" or not isinstance(ev.value, ast.Name):
+        return False
+    fr = ev.fr
+    defs = [d for d in fr._defs.get(ev.value.id, []) if d[0] != "decl"]
+    if len(defs) != 1 or defs[0][0] != "assign":
+        return False
+    valnode, idx = defs[0][2]
+    if idx != () or valnode is None:
+        return False
+    v = fr.interp.pure(valnode, fr)
+    if not isinstance(v, VPath) or v.path != path:
+        return False
+    if defs[0][1].lineno >= ev.node.lineno:
+        return False
+    sub = valnode
+    while sub is not None and not isinstance(sub, ast.Subscript):
+        sub = sub.value if isinstance(sub, ast.Attribute) else None
+    k2 = canon_key(sub.slice, fr) if isinstance(sub, ast.Subscript) else ("-",)
+    return k2 == key
+
+
+def is_loop_key(k) -> bool:
+    """Canonical keys of loop variables are never compared across statements: do not keep facts about them."""
+    if isinstance(k, tuple):
+        return (len(k) >= 4 and k[0] == "n" and k[3] == "loop") or any(is_loop_key(x) for x in k if isinstance(x, tuple))
+    return False
+
+
+class Membership:
+    """`k in C` facts for a fixed set of tracked container paths."""
+
+    def __init__(self, tracked):
+        self.tracked = set(tracked)
+        self.pruned = 0
+
+    def write(self, facts, ev):
+        path = ev.path
+        if path and path[-1] == "[]" and path[:-1] in self.tracked:
+            cont = path[:-1]
+            if ev.how == "set" and ev.key is not None:
+                k = canon_key(ev.key, ev.fr)
+                return facts if is_loop_key(k) else facts | {("in", cont, k)}
+            if ev.how != "set":
+                return frozenset(f for f in facts if not (f[0] == "in" and f[1] == cont))
+        return facts
+
+    def read(self, facts, path, node, fr):
+        if path and path[-1] == "[]" and isinstance(node, ast.Subscript) and path[:-1] in self.tracked:
+            k = canon_key(node.slice, fr)
+            return facts if is_loop_key(k) else facts | {("in", path[:-1], k)}
+        return facts
+
+    def branch(self, facts, test, fr, taken):
+        """Returns refined facts, or None when the branch is infeasible."""
+        if isinstance(test, ast.Compare) and len(test.ops) == 1 and isinstance(test.ops[0], (ast.In, ast.NotIn)):
+            from ..interp import VPath
+
+            c = test.comparators[0]
+            if isinstance(c, ast.Call) and isinstance(c.func, ast.Attribute) and c.func.attr == "keys" and not c.args:
+                c = c.func.value
+            cv = fr.interp.pure(c, fr)
+            if isinstance(cv, VPath) and cv.path in self.tracked:
+                fact = ("in", cv.path, canon_key(test.left, fr))
+                is_in = taken if isinstance(test.ops[0], ast.In) else (not taken)
+                if is_loop_key(fact[2]):
+                    return facts
+                if is_in:
+                    return facts | {fact}
+                if fact in facts:
+                    self.pruned += 1
+                    return None
+        return facts
